@@ -1,4 +1,11 @@
 import Infretis.Lemmas.RepexC06Chain
+import Infretis.Lemmas.RepexC06MultiChain
+import Infretis.Lemmas.RepexC06MultiRestore
+import Infretis.Lemmas.RepexC06MultiReach
+import Infretis.Lemmas.RepexC06MultiStop
+import Infretis.Lemmas.RepexC06MultiTotal
+import Infretis.Lemmas.RepexC06MultiEnd
+import Infretis.Lemmas.RepexC06MultiChainU
 import Infretis.Lemmas.RepexC04C05
 /-
 C06 — same seed, same run: determinism and restart equivalence (information-preservation argument on the
@@ -473,6 +480,638 @@ example : spawnedKey exAhead = some 9 ∧ (persist exAhead).spawnedRec = some 9 
      | .ok s' => decide (s'.spawned = 9 ∧ s'.cstep = 3 ∧ s'.locked0 = [])
      | .error _ => false) = true := by
   decide +kernel
+
+/-! ## several workers (Lemmas/RepexC06Multi, RepexC06MultiRestart, RepexC06MultiChain)
+
+After a restart with W > 1 workers the recorded jobs go to the workers 0, 1, … in recorded order, so worker pins, work
+folders, the engine table and `cworker` differ from the uninterrupted run.  `RM ra rb x y` relates two scheduler states
+up to that: `ObsR False` on the samplers (everything of `ObsR` except `occ`/`toinitiate`), both initiations closed, and
+the jobs in flight equal position by position in `jobKey` = (per picked ensemble: ensemble, path, move-stream and
+engine-stream identity; the old path numbers).  Jobs are identified by their position in flight order — equivalently by
+their stream ordinal, `jobKey` carries it — and their outcome (`status`, `newW`) is a function of that position in
+the event, which is the determinism assumption on engines. -/
+
+/-- **9. one scheduler step respects equality-up-to-pins** (any W): if the left side performs `.step k st w o`, the
+    right side performs it too and the results are related again — the only other possibility is that the right side
+    has no free engine instance for the worker in `prep_md_items` (`EngFail`; C03's `einvR_of_shaped` excludes it when
+    every engine type has enough instances).  Every other error is the same on both sides. -/
+theorem step_respects_obs_eq_multi {ra rb : List Repex.Row} {x y x' : Sys} (h : RM ra rb x y) (k : Nat) (st : Status)
+    (w : List (List Rat)) (o : PickOutcome) (hx : sysStep x (.step k st w o) = .ok x') :
+    (∃ y', sysStep y (.step k st w o) = .ok y' ∧ RM ra rb x' y') ∨ EngFail (sysStep y (.step k st w o)) :=
+  sysStep_step_relM h k st w o hx
+
+/-- the same for a whole run of `.step` events that both sides complete -/
+theorem run_respects_obs_eq_multi {ra rb : List Repex.Row} {x y xN yN : Sys} (evs : List Ev) (hs : StepsOnly evs)
+    (h : RM ra rb x y) (hx : run x evs = .ok xN) (hy : run y evs = .ok yN) : RM ra rb xN yN :=
+  run_steps_relM evs hs h hx hy
+
+/-- 9 for a whole run, without assuming that the right side completes: it completes and the ends are related, or
+    it stops at some step in the engine assignment (`EngFailRun`: the events before went through, related) — no other
+    failure is possible on the right when the left completes. -/
+theorem run_respects_obs_eq_multi_total {ra rb : List Repex.Row} {x y xN : Sys} (evs : List Ev) (hs : StepsOnly evs)
+    (h : RM ra rb x y) (hx : run x evs = .ok xN) :
+    (∃ yN, run y evs = .ok yN ∧ RM ra rb xN yN) ∨ EngFailRun y evs :=
+  run_steps_relM_total evs hs h hx
+
+/-- **10. the re-issue chain leaves every path where it was** (any W): when each recorded path sits in its recorded
+    slot and no path sits in two slots — the situation after `load_paths` from the restart file of the same run — the
+    `|recs|` initiation iterations change of the sampler exactly: the recorded slots get locked (`lockAll`), the record
+    moves from `locked0` to `locked` with the same ordinals, engine table / current worker / initiation counter; W,
+    the slot order, counters, tables, stream position and spawn counter are untouched.  The jobs handed out carry the
+    recorded (ensemble, path) pairs with the streams of the recorded ordinals. -/
+theorem reissue_in_place (recs : List ((List Nat × List Nat) × Nat)) (starts : List (PickOutcome × Nat)) (y y' : Sys)
+    (rest : List (List Nat × List Nat)) (ordRest : List (Option Nat))
+    (hlen : starts.length = recs.length) (hl0 : y.s.locked0 = recs.map (·.1) ++ rest)
+    (hl0o : y.s.locked0Ord = recs.map (fun r => some r.2) ++ ordRest)
+    (hin : ∀ x ∈ recs.flatMap (fun r => recPairs r.1), y.s.trajs[x.1]? = some (some x.2) ∧ x.1 + 1 < y.s.trajs.length)
+    (hu : UniqLive y.s.trajs)
+    (hrun : run y (starts.map (fun x => Ev.start x.1 x.2)) = .ok y') :
+    ∃ jobs occ' cw, y'.jobs = y.jobs ++ jobs ∧
+      jobs.map jobKey = recs.map (fun r => (recJobFull y.s.entropy r.2 r.1, (recPairs r.1).map (·.2))) ∧
+      y'.s = reState y.s (recs.flatMap (fun r => recPairs r.1)) (recs.map (fun r => recEntry r.1)) (recs.map (·.2))
+               rest ordRest occ' cw (recs.length : Int) :=
+  reissue_run_state recs starts y y' rest ordRest hlen hl0 hl0o hin hu hrun
+
+/-- **11. restart equivalence, several workers, every split point at which a fresh job is due.**  The uninterrupted
+    run is at `y` and executes `.step k st w o` then the `.step` events `rest`, reaching `yN`.  At the split
+    (`stepTreat`: loop + treat_output, the restart file is written) `r = (sampler, completed job, jobs in flight)`.
+    `s'` = the state the restart rebuilds (`RestoreRelM occ recs r.1 s'`: slots as they were, unlocked; record to be
+    re-issued; full initiation due; fresh engine table), `StopM recs r.1 r.2.2` = the jobs in flight are the record
+    `recs` with their ordinals, each recorded path in its recorded slot.  If the restarted run — `|recs|` initiation
+    iterations, one more with the saved stream position and the same pick outcome `o`, `.initDone`, the same `rest` (same
+    completion positions, same outcomes) — completes, it ends in `yN'` with: the same W, slot order, locks, records and
+    ordinals, counters, stream position, spawn ordinal, fraction/weight tables; jobs in flight with the same (ensemble,
+    path, stream identities) position by position; and the same data rows appended after the stop. -/
+theorem restart_equivalence_multi_worker {occ : List (List Int)} {recs : List ((List Nat × List Nat) × Nat)} {y : Sys}
+    {s' : St} (k : Nat) (st : Status) (w : List (List Rat)) (o : PickOutcome) (rest : List Ev) (r : St × Job × List Job)
+    (hT : stepTreat y k st w = .ok r) (hR : RestoreRelM occ recs r.1 s') (hS : StopM recs r.1 r.2.2)
+    (hmore : r.1.cstep + r.1.workers ≤ r.1.tsteps) (hsteps : StepsOnly rest)
+    {yN : Sys} (hrun : run y (.step k st w o :: rest) = .ok yN)
+    (starts : List (PickOutcome × Nat)) (hlen : starts.length = recs.length) {yN' : Sys}
+    (hrun' : run { s := s', jobs := [] }
+      (starts.map (fun x => Ev.start x.1 x.2) ++ (.start o (persist r.1).rngDraws :: .initDone :: rest)) = .ok yN') :
+    ObsR False 0 r.1.rows [] yN.s yN'.s ∧ JobsEq yN.jobs yN'.jobs ∧
+      ∃ rws, yN.s.rows = r.1.rows ++ rws ∧ yN'.s.rows = rws := by
+  have h := restart_run_multi k st w o rest r hT hR hS hmore hsteps hrun starts hlen hrun'
+  obtain ⟨rws, hra, hrb⟩ := h.obs.rows
+  exact ⟨h.obs, h.jobs, rws, hra, by simpa using hrb⟩
+
+/-- the heart of 11 in isolation: right after the restart's initiation the scheduler state equals, up to pins, the one
+    the uninterrupted run has after handing the freed worker its next job -/
+theorem restart_first_jobs_multi {occ : List (List Int)} {recs : List ((List Nat × List Nat) × Nat)} {s2 s' : St}
+    (job : Job) (restJobs : List Job) (o : PickOutcome)
+    (hR : RestoreRelM occ recs s2 s') (hS : StopM recs s2 restJobs)
+    {yU : Sys} (hU : stepPrep (s2, job, restJobs) o = .ok yU) (hmore : s2.cstep + s2.workers ≤ s2.tsteps)
+    (starts : List (PickOutcome × Nat)) (hlen : starts.length = recs.length)
+    {y1 y2 yR : Sys} (h1 : run { s := s', jobs := [] } (starts.map (fun x => Ev.start x.1 x.2)) = .ok y1)
+    (h2 : sysStep y1 (.start o s2.mainDraws) = .ok y2) (h3 : sysStep y2 .initDone = .ok yR) :
+    RM s2.rows [] yU yR :=
+  restart_step_multi job restJobs o hR hS hU hmore starts hlen h1 h2 h3
+
+/-- **12. any chain of restarts, several workers** (induction over `RestartsM`: each restart right after the
+    `treat_output` of a `.step` with a fresh job due, with `RestoreRelM`/`StopM` at that stop and a continuation that
+    also completes without further restarts): the uninterrupted run and the run with restarts end equal up to pins, and
+    the rows written since the last restart are the tail of the rows of the uninterrupted run. -/
+theorem restart_chain_equivalence_multi {y0 yN yN' : Sys} {evs : List Ev} (hres : RestartsM y0 evs yN')
+    (hrun : run y0 evs = .ok yN) :
+    ∃ ra rb, ObsR False 0 ra rb yN.s yN'.s ∧ JobsEq yN.jobs yN'.jobs ∧ ∃ pre, yN.s.rows = pre ++ yN'.s.rows :=
+  restart_chain_multi hres hrun
+
+/-- **13. `restore (persist s)` at a stop with jobs in flight** (any W; `restore_persist_obs_eq` is the case of an
+    empty record).  `StopStateM s pns recs`: the state right after `treat_output`, `pns` its live paths in slot order —
+    shapes, every real slot holding a path whose padded stored weight vector is its W row with a non-zero diagonal
+    entry and a fraction entry, empty/zero ghost slot, tables keyed by live paths, entropy = seed — with the jobs in
+    flight on record (`locked = recs` with ordinals `lockedOrd`) and exactly their slots locked.  Then the image loads
+    (`load_paths` reads neither the record nor the spawn counter: `loadPaths_setRec`) and the rebuilt state has the
+    slots of `s`, all free — re-locking the record gives the locks of `s` —, the record waiting in `locked0` with its
+    ordinals, the counters, seed, entropy, spawn counter and tables of `s` (`RestoreRelM`). -/
+theorem restore_persist_obs_eq_multi {s : St} {pns : List Nat} {recs : List ((List Nat × List Nat) × Nat)}
+    (h : StopStateM s pns recs) (occ : List (List Int)) :
+    ∃ s', restore (persist s) s.n s.workers s.tsteps occ s.ensEng (fun pn => (s.wts.lookup pn).getD []) = .ok s' ∧
+      RestoreRelM occ recs s s' :=
+  restore_persist_multi h occ
+
+/-- **14. restart equivalence, several workers, from the files alone**: 11 with `RestoreRelM` discharged by 13 — the
+    state left by `treat_output` is a stop state with its in-flight jobs on record, the image is `persist` of it, the
+    restart rebuilds from the image; whatever initiation outcomes `starts` the re-issue iterations are given (they draw
+    nothing), a restarted run that completes ends equal to the uninterrupted one up to who runs what. -/
+theorem restart_equivalence_multi_from_image {occ : List (List Int)} {recs : List ((List Nat × List Nat) × Nat)}
+    {pns : List Nat} {y : Sys} (k : Nat) (st : Status) (w : List (List Rat)) (o : PickOutcome) (rest : List Ev)
+    (r : St × Job × List Job) (hT : stepTreat y k st w = .ok r) (hSS : StopStateM r.1 pns recs)
+    (hS : StopM recs r.1 r.2.2) (hmore : r.1.cstep + r.1.workers ≤ r.1.tsteps) (hsteps : StepsOnly rest)
+    {yN : Sys} (hrun : run y (.step k st w o :: rest) = .ok yN) :
+    ∃ s', restore (persist r.1) r.1.n r.1.workers r.1.tsteps occ r.1.ensEng
+        (fun pn => (r.1.wts.lookup pn).getD []) = .ok s' ∧
+      ∀ (starts : List (PickOutcome × Nat)) (yN' : Sys), starts.length = recs.length →
+        run { s := s', jobs := [] }
+          (starts.map (fun x => Ev.start x.1 x.2) ++ (.start o (persist r.1).rngDraws :: .initDone :: rest)) = .ok yN' →
+        ObsR False 0 r.1.rows [] yN.s yN'.s ∧ JobsEq yN.jobs yN'.jobs ∧
+          ∃ rws, yN.s.rows = r.1.rows ++ rws ∧ yN'.s.rows = rws := by
+  obtain ⟨s', h1, hR⟩ := restore_persist_multi hSS occ
+  exact ⟨s', h1, fun starts yN' hlen hrun' =>
+    restart_equivalence_multi_worker k st w o rest r hT hR hS hmore hsteps hrun starts hlen hrun'⟩
+
+/-- **15. `StopM` is derived, not assumed** (any W): for every state `y` of every chain of runs and restarts
+    (`ChainReach`, C07 — whose invariant `NInv` holds C03's slot invariant, `locked = jobs in flight`, one ordinal per
+    job, each job carrying the streams of its ordinal), with the initiation closed and nothing left to re-issue, the state
+    `treat_output` leaves at a `.step` has its jobs in flight on record (`recsOf`: slots, paths, ordinals — what
+    `write_toml` stores), each recorded path in its recorded slot, no path in two slots.  `PnumOk` (every job's
+    `pnum_old` lists its picked paths) is preserved by every event: `pnumOk_preserved`. -/
+theorem stopM_of_reachable_multi {seed : Nat} {y : Sys} {log : List Entry} (h : ChainReach seed y log)
+    (hti : y.s.toinitiate = -1) (hl0 : y.s.locked0Ord = []) (hp : PnumOk y.jobs) {k : Nat} {st : Status}
+    {w : List (List Rat)} {r : St × Job × List Job} (hT : stepTreat y k st w = .ok r) :
+    StopM (recsOf r.2.2 r.1.lockedOrd) r.1 r.2.2 :=
+  stopM_of_reachable h hti hl0 hp hT
+
+theorem pnumOk_preserved (evs : List Ev) {y y' : Sys} (hp : PnumOk y.jobs) (h : run y evs = .ok y') : PnumOk y'.jobs :=
+  run_pnumOk evs hp h
+
+/-- **16. restart equivalence, several workers, reachable states**: 14 with `StopM` discharged by 15.  What remains
+    assumed of the stopped state is `StopStateM` (C05's sorted non-zero diagonal and the tidy tables at a stop with jobs
+    in flight — derived for one worker in 5, evaluated on the example and compared by the tie for several) and that the
+    restarted run completes (it can only stop in the engine assignment: 9). -/
+theorem restart_equivalence_multi_reachable {seed : Nat} {y : Sys} {log : List Entry} (h : ChainReach seed y log)
+    (hti : y.s.toinitiate = -1) (hl0 : y.s.locked0Ord = []) (hp : PnumOk y.jobs)
+    {occ : List (List Int)} {pns : List Nat} (k : Nat) (st : Status) (w : List (List Rat)) (o : PickOutcome)
+    (rest : List Ev) (r : St × Job × List Job) (hT : stepTreat y k st w = .ok r)
+    (hSS : StopStateM r.1 pns (recsOf r.2.2 r.1.lockedOrd))
+    (hmore : r.1.cstep + r.1.workers ≤ r.1.tsteps) (hsteps : StepsOnly rest)
+    {yN : Sys} (hrun : run y (.step k st w o :: rest) = .ok yN) :
+    ∃ s', restore (persist r.1) r.1.n r.1.workers r.1.tsteps occ r.1.ensEng
+        (fun pn => (r.1.wts.lookup pn).getD []) = .ok s' ∧
+      ∀ (starts : List (PickOutcome × Nat)) (yN' : Sys), starts.length = r.2.2.length →
+        run { s := s', jobs := [] }
+          (starts.map (fun x => Ev.start x.1 x.2) ++ (.start o (persist r.1).rngDraws :: .initDone :: rest)) = .ok yN' →
+        ObsR False 0 r.1.rows [] yN.s yN'.s ∧ JobsEq yN.jobs yN'.jobs ∧
+          ∃ rws, yN.s.rows = r.1.rows ++ rws ∧ yN'.s.rows = rws := by
+  have hS := stopM_of_reachable h hti hl0 hp hT
+  obtain ⟨s', h1, h2⟩ := restart_equivalence_multi_from_image (occ := occ) k st w o rest r hT hSS hS hmore hsteps hrun
+  refine ⟨s', h1, fun starts yN' hlen hrun' => h2 starts yN' ?_ hrun'⟩
+  have hl : (recsOf r.2.2 r.1.lockedOrd).length = r.2.2.length := by
+    have := congrArg List.length hS.locked
+    have h3 := congrArg List.length hS.onRecord
+    simp only [List.length_map] at h3
+    exact h3.symm
+  rw [hl]; exact hlen
+
+/-- **17. `StopStateM` and `StopM` are derived for any number of workers**: `y` reached from a start state `StartM`
+    (fresh `Init5` or rebuilt `Init5R`, any W, tidy tables, nothing recorded, entropy = seed, spawn counter = cstep) by a
+    well-formed history (`HistOk`), initiation closed: at every `.step` the state `treat_output` leaves behind is a stop
+    state with its jobs in flight on record.  (`ReachM` = C03 `InvR` + C05 `Inv5` + C07 `NInv` + `TidyY` + `Ent` +
+    `PnumOk`, each preserved by every event.) -/
+theorem stopStateM_of_reachable {y0 y y' : Sys} (h0 : StartM y0) (evs : List Ev) (hh : HistOk y0 evs)
+    (hy : run y0 evs = .ok y) (hti : y.s.toinitiate = -1)
+    (k : Nat) (st : Status) (w : List (List Rat)) (o : PickOutcome) (hev : EvOk y (.step k st w o))
+    (h : sysStep y (.step k st w o) = .ok y') {r : St × Job × List Job} (hT : stepTreat y k st w = .ok r) :
+    StopStateM r.1 (livePns r.1) (recsOf r.2.2 r.1.lockedOrd) ∧ StopM (recsOf r.2.2 r.1.lockedOrd) r.1 r.2.2 :=
+  stopStateM_of_reach (run_reachM evs h0.reach hh hy) hti k st w o hev h hT
+
+/-- **18. restart equivalence for every history with any number of workers and every split point at which a fresh job
+    is due — no hypothesis on any state.**  `y0` a start state (`StartM`), the history `pre ++ .step k st w o :: rest`
+    well formed (`HistOk`) and running uninterrupted to `yN`; the initiation is closed when the split step begins.  Then
+    the split state `r` exists, its image loads to some `s'` (any engine table `occ` for the new process), and every
+    restarted run from `s'` — as many initiation iterations as jobs were in flight (whatever outcomes they are handed:
+    re-issues draw nothing), one more with the saved stream position and the same outcome `o`, `.initDone`, the same
+    `rest` — that completes ends equal to `yN` up to who runs what: same W, slot order, locks, records and ordinals,
+    counters, stream position, spawn ordinal, fraction/weight tables; the jobs in flight agree position by position
+    in (ensemble, path, stream identities); the data rows appended after the stop are the same.  (That the restarted
+    run can only fail to complete in the engine assignment is 9.) -/
+theorem restart_equivalence_reachable_multi {y0 y yN : Sys} (h0 : StartM y0) (pre : List Ev) (k : Nat) (st : Status)
+    (w : List (List Rat)) (o : PickOutcome) (rest : List Ev) (occ : List (List Int))
+    (hh : HistOk y0 (pre ++ (.step k st w o :: rest))) (hy : run y0 pre = .ok y) (hti : y.s.toinitiate = -1)
+    (hsteps : StepsOnly rest) (hrun : run y (.step k st w o :: rest) = .ok yN) :
+    ∃ r s', stepTreat y k st w = .ok r ∧
+      StopStateM r.1 (livePns r.1) (recsOf r.2.2 r.1.lockedOrd) ∧ StopM (recsOf r.2.2 r.1.lockedOrd) r.1 r.2.2 ∧
+      restore (persist r.1) r.1.n r.1.workers r.1.tsteps occ r.1.ensEng
+        (fun pn => (r.1.wts.lookup pn).getD []) = .ok s' ∧
+      RestoreRelM occ (recsOf r.2.2 r.1.lockedOrd) r.1 s' ∧
+      (r.1.cstep + r.1.workers ≤ r.1.tsteps →
+        ∀ (starts : List (PickOutcome × Nat)) (yN' : Sys), starts.length = r.2.2.length →
+          run { s := s', jobs := [] }
+            (starts.map (fun x => Ev.start x.1 x.2) ++ (.start o (persist r.1).rngDraws :: .initDone :: rest)) = .ok yN' →
+          ObsR False 0 r.1.rows [] yN.s yN'.s ∧ JobsEq yN.jobs yN'.jobs ∧
+            ∃ rws, yN.s.rows = r.1.rows ++ rws ∧ yN'.s.rows = rws) := by
+  have hev : EvOk y (.step k st w o) := (histOk_append pre _ hh hy).1
+  have hrun0 := hrun
+  simp only [run] at hrun
+  cases hstep : sysStep y (.step k st w o) with
+  | error e => rw [hstep] at hrun; exact absurd hrun (by simp)
+  | ok y' =>
+    have hhalf := hstep
+    rw [sysStep_eq_halves] at hhalf
+    cases hT : stepTreat y k st w with
+    | error e => rw [hT] at hhalf; exact absurd hhalf (by simp)
+    | ok r =>
+      obtain ⟨hSS, hS⟩ := stopStateM_of_reachable h0 pre (histOk_prefix pre _ hh) hy hti k st w o hev hstep hT
+      obtain ⟨s', hres, hR⟩ := restore_persist_obs_eq_multi hSS occ
+      refine ⟨r, s', rfl, hSS, hS, hres, hR, ?_⟩
+      intro hmore starts yN' hlen hrun'
+      have hl : (recsOf r.2.2 r.1.lockedOrd).length = r.2.2.length := by
+        have h3 := congrArg List.length hS.onRecord
+        simp only [List.length_map] at h3
+        exact h3.symm
+      exact restart_equivalence_multi_worker k st w o rest r hT hR hS hmore hsteps hrun0 starts (by rw [hl]; exact hlen)
+        hrun'
+
+/-- **19. restart equivalence, several workers, a stop in the final phase** (fewer steps left than workers, so the
+    worker that completed the step gets no new job; at least one step left).  As 11, but the restarted run is
+    `|recs|` re-issues, `.initDone`, the same `rest`; the ends agree up to who runs what and up to the position of the
+    scheduler stream (`setMD`), from which nothing is drawn any more — `treat_output` neither reads nor writes it
+    (`treatOutput_setMD`); the model's `restore` keeps that position at 0 until the first fresh pick, the code's
+    `set_rgen` restores it at once.  With 11 this covers every split point 0 < k < N. -/
+theorem restart_equivalence_multi_final_phase {occ : List (List Int)} {recs : List ((List Nat × List Nat) × Nat)}
+    {y : Sys} {s' : St} (k : Nat) (st : Status) (w : List (List Rat)) (o : PickOutcome) (rest : List Ev)
+    (r : St × Job × List Job) (hT : stepTreat y k st w = .ok r) (hR : RestoreRelM occ recs r.1 s')
+    (hS : StopM recs r.1 r.2.2) (hend : ¬ (r.1.cstep + r.1.workers ≤ r.1.tsteps)) (hlt : r.1.cstep < r.1.tsteps)
+    (hmW : recs.length ≤ r.1.workers) (hsteps : StepsOnly rest)
+    {yN : Sys} (hrun : run y (.step k st w o :: rest) = .ok yN)
+    (starts : List (PickOutcome × Nat)) (hlen : starts.length = recs.length) {yN' : Sys}
+    (hrun' : run { s := s', jobs := [] } (starts.map (fun x => Ev.start x.1 x.2) ++ (.initDone :: rest)) = .ok yN') :
+    ObsR False 0 r.1.rows [] yN.s (setMD yN'.s r.1.mainDraws) ∧ JobsEq yN.jobs yN'.jobs ∧
+      ∃ rws, yN.s.rows = r.1.rows ++ rws ∧ yN'.s.rows = rws := by
+  have h := restart_run_multi_end k st w o rest r hT hR hS hend hlt hmW hsteps hrun starts hlen hrun'
+  obtain ⟨rws, hra, hrb⟩ := h.obs.rows
+  have hrb' : (nm r.1.mainDraws yN').s.rows = rws := by simpa using hrb
+  exact ⟨h.obs, h.jobs, rws, hra, hrb'⟩
+
+/-- 19 for reachable states: `RestoreRelM` and `StopM` discharged as in 18 -/
+theorem restart_equivalence_reachable_multi_final_phase {y0 y yN : Sys} (h0 : StartM y0) (pre : List Ev) (k : Nat)
+    (st : Status) (w : List (List Rat)) (o : PickOutcome) (rest : List Ev) (occ : List (List Int))
+    (hh : HistOk y0 (pre ++ (.step k st w o :: rest))) (hy : run y0 pre = .ok y) (hti : y.s.toinitiate = -1)
+    (hsteps : StepsOnly rest) (hrun : run y (.step k st w o :: rest) = .ok yN) :
+    ∃ r s', stepTreat y k st w = .ok r ∧
+      restore (persist r.1) r.1.n r.1.workers r.1.tsteps occ r.1.ensEng
+        (fun pn => (r.1.wts.lookup pn).getD []) = .ok s' ∧
+      (¬ (r.1.cstep + r.1.workers ≤ r.1.tsteps) → r.1.cstep < r.1.tsteps → r.2.2.length ≤ r.1.workers →
+        ∀ (starts : List (PickOutcome × Nat)) (yN' : Sys), starts.length = r.2.2.length →
+          run { s := s', jobs := [] } (starts.map (fun x => Ev.start x.1 x.2) ++ (.initDone :: rest)) = .ok yN' →
+          ObsR False 0 r.1.rows [] yN.s (setMD yN'.s r.1.mainDraws) ∧ JobsEq yN.jobs yN'.jobs ∧
+            ∃ rws, yN.s.rows = r.1.rows ++ rws ∧ yN'.s.rows = rws) := by
+  obtain ⟨r, s', hT, _, hS, hres, hR, _⟩ := restart_equivalence_reachable_multi h0 pre k st w o rest occ hh hy hti hsteps hrun
+  refine ⟨r, s', hT, hres, ?_⟩
+  intro hend hlt hmW starts yN' hlen hrun'
+  have hl : (recsOf r.2.2 r.1.lockedOrd).length = r.2.2.length := by
+    have h3 := congrArg List.length hS.onRecord
+    simp only [List.length_map] at h3
+    exact h3.symm
+  exact restart_equivalence_multi_final_phase k st w o rest r hT hR hS hend hlt (by rw [hl]; exact hmW) hsteps hrun
+    starts (by rw [hl]; exact hlen) hrun'
+
+/-- **20. any chain of restarts, several workers — no hypothesis on any state.**  `y0` a start state (`StartM`), `pre`
+    the history up to a point where the initiation is closed, `evs` the `.step` events that follow (the whole history
+    well formed), running uninterrupted to `yN`.  `ChainM y evs yN'` describes a run with any number of restarts by what
+    the processes do and nothing else: run steps; stop right after the `treat_output` of a step at which a fresh job is
+    due; `restore` the image (any engine table); as many initiation iterations as jobs were in flight, one more with the
+    saved stream position, `.initDone`; go on.  Then `yN` and `yN'` agree on W, slot order, locks, records and ordinals,
+    counters, stream position, spawn ordinal, fraction/weight tables; hold the same jobs (ensemble, path, stream
+    identities) position by position; and appended the same rows since the last restart.
+    The induction keeps the uninterrupted run on the left: `StopStateM`/`StopM` are proved for its states (17) and
+    transfer along `RM` to the states of the restarted runs (`StopStateM.transfer`, `StopM.transfer`), where
+    `restore_persist_obs_eq_multi` (13) then applies. -/
+theorem restart_chain_equivalence_multi_unconditional {y0 y yN yN' : Sys} (h0 : StartM y0) (pre evs : List Ev)
+    (hh : HistOk y0 (pre ++ evs)) (hy : run y0 pre = .ok y) (hti : y.s.toinitiate = -1) (hs : StepsOnly evs)
+    (hrun : run y evs = .ok yN) (hc : ChainM y evs yN') :
+    ∃ ra rb, ObsR False 0 ra rb yN.s yN'.s ∧ JobsEq yN.jobs yN'.jobs := by
+  obtain ⟨ra, rb, h⟩ := restart_chain_multi_unconditional hc (run_reachM pre h0.reach (histOk_prefix pre _ hh) hy)
+    (histOk_append pre _ hh hy) (RM.refl hti) hs hrun
+  exact ⟨ra, rb, h.obs, h.jobs⟩
+
+/-! ### non-vacuity, two workers: 3 ensembles + ghost, 8 steps, split at the second step while a job is in flight -/
+
+def mFresh : St :=
+  match loadPaths (blank 4 2 8 0 3 5 [[-1, -1]] [[0], [0], [0]] false [])
+      [(0, [1], [0, 0, 0, 0]), (1, [1, 0, 0], [0, 0, 0, 0]), (2, [1, 1, 0], [0, 0, 0, 0])] with
+  | .ok s => s
+  | .error _ => exRestored
+
+def mY : Sys :=
+  match run { s := mFresh, jobs := [] }
+      [.start { t := 0, e := 0 }, .start { t := 2, e := 2 }, .initDone, .step 0 .rej [] { t := 0, e := 0 }] with
+  | .ok y => y
+  | .error _ => { s := exRestored, jobs := [] }
+
+def mR : St × Job × List Job :=
+  match stepTreat mY 1 .acc [[1]] with
+  | .ok r => r
+  | .error _ => (exRestored, { pin := 0, wfolder := 0, picked := [], pnumOld := [] }, [])
+
+def mS' : St :=
+  match restore (persist mR.1) 4 2 8 [[-1, -1]] [[0], [0], [0]] (fun pn => (mR.1.wts.lookup pn).getD []) with
+  | .ok s => s
+  | .error _ => exRestored
+
+/-- the record at the stop: the job on [1+] (slot 2) with path 2, stream ordinal 1 -/
+def mRecs : List ((List Nat × List Nat) × Nat) := [(([2], [2]), 1)]
+def mStarts : List (PickOutcome × Nat) := [({ t := 0, e := 0 }, 0)]
+def mO : PickOutcome := { t := 1, e := 1 }
+def mRest : List Ev := [.step 0 .rej [] { t := 2, e := 2 }, .step 0 .acc [[1, 0, 0]] { t := 1, e := 1 }]
+
+def mYN : Sys := match run mY (.step 1 .acc [[1]] mO :: mRest) with | .ok y => y | .error _ => mY
+def mYN' : Sys :=
+  match run { s := mS', jobs := [] }
+      (mStarts.map (fun x => Ev.start x.1 x.2) ++ (.start mO (persist mR.1).rngDraws :: .initDone :: mRest)) with
+  | .ok y => y
+  | .error _ => mY
+
+theorem mTreat : stepTreat mY 1 .acc [[1]] = .ok mR := eq_ok_of_okEq (by decide +kernel)
+theorem mRunU : run mY (.step 1 .acc [[1]] mO :: mRest) = .ok mYN := eq_ok_of_okEq (by decide +kernel)
+theorem mRunR : run { s := mS', jobs := [] }
+    (mStarts.map (fun x => Ev.start x.1 x.2) ++ (.start mO (persist mR.1).rngDraws :: .initDone :: mRest)) = .ok mYN' :=
+  eq_ok_of_okEq (by decide +kernel)
+
+/-- the split is a real one: a job is in flight and on record with its ordinal; the restart re-issues it to worker 0
+    while it ran on worker 1 before, and gives the fresh job to worker 1 (worker 0 in the uninterrupted run): at the end the
+    two runs hold the same jobs on exchanged workers -/
+example : mR.1.cstep = 2 ∧ mR.1.workers = 2 ∧ (persist mR.1).locked = [([2], [2])] ∧ (persist mR.1).lockedOrd = [1] ∧
+    mR.2.2.map (·.pin) = [1] ∧ mS'.locked0 = [([2], [2])] := by
+  decide +kernel
+
+example : mS'.locks = [false, false, false, true] ∧ mR.1.locks = [false, false, true, true] ∧
+    mYN.jobs.map (·.pin) = [1, 0] ∧ mYN'.jobs.map (·.pin) = [0, 1] ∧
+    mYN.jobs.map jobKey = mYN'.jobs.map jobKey ∧ mYN.s.cstep = 4 := by
+  decide +kernel
+
+theorem mRestoreRelM : RestoreRelM [[-1, -1]] mRecs mR.1 mS' :=
+  ⟨by decide +kernel, by decide +kernel, by decide +kernel, by decide +kernel, by decide +kernel, by decide +kernel,
+   by decide +kernel, by decide +kernel, by decide +kernel, by decide +kernel, by decide +kernel, by decide +kernel,
+   FEq_of_keys _ _ (by decide +kernel), FEq_of_keys _ _ (by decide +kernel), by decide +kernel, by decide +kernel,
+   by decide +kernel, by decide +kernel, by decide +kernel, by decide +kernel, by decide +kernel, by decide +kernel,
+   by decide +kernel⟩
+
+theorem mStopM : StopM mRecs mR.1 mR.2.2 :=
+  ⟨by decide +kernel, by decide +kernel, by decide +kernel, by decide +kernel, by decide +kernel, by decide +kernel,
+   UniqLive.of_nodup (by decide +kernel), by decide +kernel⟩
+
+/-- all hypotheses of `restart_equivalence_multi_worker` hold together on this system … -/
+example : stepTreat mY 1 .acc [[1]] = .ok mR ∧ RestoreRelM [[-1, -1]] mRecs mR.1 mS' ∧ StopM mRecs mR.1 mR.2.2 ∧
+    mR.1.cstep + mR.1.workers ≤ mR.1.tsteps ∧ StepsOnly mRest ∧ mStarts.length = mRecs.length ∧
+    run mY (.step 1 .acc [[1]] mO :: mRest) = .ok mYN ∧
+    run { s := mS', jobs := [] }
+      (mStarts.map (fun x => Ev.start x.1 x.2) ++ (.start mO (persist mR.1).rngDraws :: .initDone :: mRest)) = .ok mYN' :=
+  ⟨mTreat, mRestoreRelM, mStopM, by decide +kernel, by simp [mRest, StepsOnly], rfl, mRunU, mRunR⟩
+
+/-- … and its conclusion, instantiated -/
+example : ObsR False 0 mR.1.rows [] mYN.s mYN'.s ∧ JobsEq mYN.jobs mYN'.jobs ∧
+    ∃ rws, mYN.s.rows = mR.1.rows ++ rws ∧ mYN'.s.rows = rws :=
+  restart_equivalence_multi_worker 1 .acc [[1]] mO mRest mR mTreat mRestoreRelM mStopM (by decide +kernel)
+    (by simp [mRest, StepsOnly]) mRunU mStarts rfl mRunR
+
+/-- the stopped two-worker state is a stop state with its job on record (live paths 3, 1, 2 in slot order; slot 2
+    locked for the recorded job) -/
+theorem mStopStateM : StopStateM mR.1 [3, 1, 2] mRecs := by
+  refine ⟨by decide +kernel, by decide +kernel, by decide +kernel, by decide +kernel, by decide +kernel, ?_,
+          by decide +kernel, by decide +kernel, by decide +kernel, by decide +kernel, by decide +kernel,
+          by decide +kernel, by decide +kernel, by decide +kernel, by decide +kernel, by decide +kernel⟩
+  intro e pn hp
+  match e, hp with
+  | 0, hp =>
+    simp only [List.getElem?_cons_zero, Option.some.injEq] at hp
+    subst hp
+    exact ⟨by decide +kernel, [1], by decide +kernel, by decide +kernel, by decide +kernel, by decide +kernel,
+           [1, 0, 0, 0], by decide +kernel⟩
+  | 1, hp =>
+    simp only [List.getElem?_cons_succ, List.getElem?_cons_zero, Option.some.injEq] at hp
+    subst hp
+    exact ⟨by decide +kernel, [1, 0, 0], by decide +kernel, by decide +kernel, by decide +kernel, by decide +kernel,
+           [0, 2, 0, 0], by decide +kernel⟩
+  | 2, hp =>
+    simp only [List.getElem?_cons_succ, List.getElem?_cons_zero, Option.some.injEq] at hp
+    subst hp
+    exact ⟨by decide +kernel, [1, 1, 0], by decide +kernel, by decide +kernel, by decide +kernel, by decide +kernel,
+           [0, 0, 0, 0], by decide +kernel⟩
+  | e + 3, hp => simp at hp
+
+/-- 13 and 14 on the concrete system: the image loads, and the restarted run of the example ends equal up to pins -/
+example : ∃ s', restore (persist mR.1) 4 2 8 [[-1, -1]] [[0], [0], [0]] (fun pn => (mR.1.wts.lookup pn).getD []) = .ok s' ∧
+    RestoreRelM [[-1, -1]] mRecs mR.1 s' := by
+  have := restore_persist_obs_eq_multi mStopStateM [[-1, -1]]
+  have h1 : mR.1.n = 4 := by decide +kernel
+  have h2 : mR.1.workers = 2 := by decide +kernel
+  have h3 : mR.1.tsteps = 8 := by decide +kernel
+  have h4 : mR.1.ensEng = [[0], [0], [0]] := by decide +kernel
+  rw [h1, h2, h3, h4] at this
+  exact this
+
+example : ∃ s', restore (persist mR.1) mR.1.n mR.1.workers mR.1.tsteps [[-1, -1]] mR.1.ensEng
+      (fun pn => (mR.1.wts.lookup pn).getD []) = .ok s' ∧
+    ∀ (starts : List (PickOutcome × Nat)) (yN' : Sys), starts.length = mRecs.length →
+      run { s := s', jobs := [] }
+        (starts.map (fun x => Ev.start x.1 x.2) ++ (.start mO (persist mR.1).rngDraws :: .initDone :: mRest)) = .ok yN' →
+      ObsR False 0 mR.1.rows [] mYN.s yN'.s ∧ JobsEq mYN.jobs yN'.jobs ∧
+        ∃ rws, mYN.s.rows = mR.1.rows ++ rws ∧ yN'.s.rows = rws :=
+  restart_equivalence_multi_from_image 1 .acc [[1]] mO mRest mR mTreat mStopStateM mStopM (by decide +kernel)
+    (by simp [mRest, StepsOnly]) mRunU
+
+/-- the example's stop is one of a reachable chain: fresh start `ChainReach.fresh`, then `ChainReach.run`; its record
+    is `recsOf` of the job in flight, so 15 and 16 apply (hypotheses satisfiable) -/
+theorem mFresh_loaded :
+    loadPaths (blank 4 2 8 0 3 5 [[-1, -1]] [[0], [0], [0]] false [])
+      [(0, [1], [0, 0, 0, 0]), (1, [1, 0, 0], [0, 0, 0, 0]), (2, [1, 1, 0], [0, 0, 0, 0])] = .ok mFresh :=
+  eq_ok_of_okEq (by decide +kernel)
+
+example : recsOf mR.2.2 mR.1.lockedOrd = mRecs ∧ mY.s.toinitiate = -1 ∧ mY.s.locked0Ord = [] ∧
+    mR.2.2.length = mStarts.length := by decide +kernel
+
+example : PnumOk mY.jobs := by
+  have h0 : PnumOk ({ s := mFresh, jobs := [] } : Sys).jobs := fun j hj => absurd hj (by simp)
+  have hr : run { s := mFresh, jobs := [] }
+      [.start { t := 0, e := 0 }, .start { t := 2, e := 2 }, .initDone, .step 0 .rej [] { t := 0, e := 0 }] = .ok mY :=
+    eq_ok_of_okEq (by decide +kernel)
+  exact pnumOk_preserved _ h0 hr
+
+theorem mInit : Init ({ s := mFresh, jobs := [] } : Sys) := by
+  have htr : mFresh.trajs = [some 0, some 1, some 2, none] := by decide +kernel
+  have hn : mFresh.n = 4 := by decide +kernel
+  have htn : mFresh.trajNum = 3 := by decide +kernel
+  refine ⟨rfl, by decide +kernel, by decide +kernel, by decide +kernel, by decide +kernel, ?_, ?_, by decide +kernel,
+          by decide +kernel⟩
+  · intro e he
+    show ∃ pn, mFresh.trajs[e]? = some (some pn) ∧ pn < mFresh.trajNum
+    have he' : e < mFresh.n - 1 := he
+    rw [hn] at he'
+    rw [htr, htn]
+    match e, he' with
+    | 0, _ => exact ⟨0, rfl, by omega⟩
+    | 1, _ => exact ⟨1, rfl, by omega⟩
+    | 2, _ => exact ⟨2, rfl, by omega⟩
+    | e + 3, h3 => omega
+  · intro a b pn ha _ h1 h2
+    have ha' : a < mFresh.n - 1 := ha
+    rw [hn] at ha'
+    have h1' : mFresh.trajs[a]? = some (some pn) := h1
+    have h2' : mFresh.trajs[b]? = some (some pn) := h2
+    have hnd : mFresh.trajs.Nodup := by rw [htr]; decide
+    have hlt : a < mFresh.trajs.length := by rw [htr]; simp only [List.length_cons, List.length_nil]; omega
+    exact (List.getElem?_inj hlt hnd).mp (h1'.trans h2'.symm)
+
+theorem mRunPre : run { s := mFresh, jobs := [] }
+    [.start { t := 0, e := 0 }, .start { t := 2, e := 2 }, .initDone, .step 0 .rej [] { t := 0, e := 0 }] = .ok mY :=
+  eq_ok_of_okEq (by decide +kernel)
+
+/-- the example's stop is a stop of a reachable chain (fresh start, then the scheduler's events) -/
+theorem mChain : ∃ log, ChainReach 5 mY log :=
+  ⟨_, ChainReach.run (ChainReach.fresh mInit (by decide +kernel) (by decide +kernel) (by decide +kernel)
+    (by decide +kernel) (by decide +kernel) (by decide +kernel) (by decide +kernel)) mRunPre⟩
+
+/-- 15 on it: `StopM` for the record `recsOf` … which is the record of the example -/
+example : StopM (recsOf mR.2.2 mR.1.lockedOrd) mR.1 mR.2.2 := by
+  obtain ⟨log, hc⟩ := mChain
+  exact stopM_of_reachable_multi hc (by decide +kernel) (by decide +kernel)
+    (pnumOk_preserved _ (fun j hj => absurd hj (by simp)) mRunPre) mTreat
+
+/-- the two-worker example as a member of the family of 17/18: `StartM`, well-formed history -/
+theorem mStartM : StartM ({ s := mFresh, jobs := [] } : Sys) := by
+  have h5 : Init5 ({ s := mFresh, jobs := [] } : Sys) := by
+    apply init5_of_loadPaths 4 2 8 0 3 5 [[-1, -1]] [[0], [0], [0]] false _ mFresh (by decide) (by decide) (by decide)
+      (by decide) ?_ mFresh_loaded
+    intro i hi
+    match i, hi with
+    | 0, _ =>
+      show VecOk 4 (-1) [1]
+      exact Frac.vecOk_of_B (by decide +kernel)
+    | 1, _ =>
+      show VecOk 4 0 [1, 0, 0]
+      exact Frac.vecOk_of_B (by decide +kernel)
+    | 2, _ =>
+      show VecOk 4 1 [1, 1, 0]
+      exact Frac.vecOk_of_B (by decide +kernel)
+  have hk : mFresh.wts.map Prod.fst = [1, 2, 0] := by decide +kernel
+  have htr : mFresh.trajs = [some 0, some 1, some 2, none] := by decide +kernel
+  refine ⟨Or.inl h5, ⟨by decide +kernel, by decide +kernel, by decide +kernel, ?_⟩, by decide +kernel,
+    by decide +kernel, ⟨by decide +kernel, by decide +kernel, by decide +kernel⟩, by decide +kernel⟩
+  intro q
+  show q ∈ mFresh.wts.map Prod.fst ↔ some q ∈ mFresh.trajs
+  rw [hk, htr]
+  simp only [List.mem_cons, List.not_mem_nil, or_false, Option.some.injEq, reduceCtorEq]
+  omega
+
+def mPre : List Ev :=
+  [.start { t := 0, e := 0 }, .start { t := 2, e := 2 }, .initDone, .step 0 .rej [] { t := 0, e := 0 }]
+
+theorem mHistOk : HistOk ({ s := mFresh, jobs := [] } : Sys) (mPre ++ (.step 1 .acc [[1]] mO :: mRest)) :=
+  Frac.histOk_of_B _ _ (by decide +kernel)
+
+/-- all hypotheses of `restart_equivalence_reachable_multi` hold on the two-worker history, a fresh job is due at the
+    split, and the restarted run of the example is one of the runs its conclusion speaks about -/
+example : StartM ({ s := mFresh, jobs := [] } : Sys) ∧
+    HistOk ({ s := mFresh, jobs := [] } : Sys) (mPre ++ (.step 1 .acc [[1]] mO :: mRest)) ∧
+    run { s := mFresh, jobs := [] } mPre = .ok mY ∧ mY.s.toinitiate = -1 ∧ StepsOnly mRest ∧
+    run mY (.step 1 .acc [[1]] mO :: mRest) = .ok mYN ∧ mR.1.cstep + mR.1.workers ≤ mR.1.tsteps ∧
+    mStarts.length = mR.2.2.length :=
+  ⟨mStartM, mHistOk, mRunPre, by decide +kernel, by simp [mRest, StepsOnly], mRunU, by decide +kernel, by decide +kernel⟩
+
+/-- the two systems right after the restart's initiation / after the split step: related by `RM`, differing in pins —
+    the hypotheses of `run_respects_obs_eq_multi_total` (and of 9) hold for them with the remaining steps -/
+def mYU : Sys := match run mY [.step 1 .acc [[1]] mO] with | .ok y => y | .error _ => mY
+def mYR : Sys :=
+  match run { s := mS', jobs := [] }
+      (mStarts.map (fun x => Ev.start x.1 x.2) ++ [.start mO (persist mR.1).rngDraws, .initDone]) with
+  | .ok y => y
+  | .error _ => mY
+
+theorem mRunU0 : run mY [.step 1 .acc [[1]] mO] = .ok mYU := eq_ok_of_okEq (by decide +kernel)
+theorem mRunR0 : run { s := mS', jobs := [] }
+    (mStarts.map (fun x => Ev.start x.1 x.2) ++ [.start mO (persist mR.1).rngDraws, .initDone]) = .ok mYR :=
+  eq_ok_of_okEq (by decide +kernel)
+
+example : RM mR.1.rows [] mYU mYR ∧ StepsOnly mRest ∧ run mYU mRest = .ok mYN ∧
+    mYU.jobs.map (·.pin) ≠ mYR.jobs.map (·.pin) :=
+  ⟨restart_run_multi 1 .acc [[1]] mO [] mR mTreat mRestoreRelM mStopM (by decide +kernel) trivial mRunU0 mStarts rfl
+      mRunR0,
+   by simp [mRest, StepsOnly], eq_ok_of_okEq (by decide +kernel), by decide +kernel⟩
+
+/-! final phase: the same two-worker system with 3 steps in all, split at the second step (one step and one job left) -/
+
+def eFresh : St :=
+  match loadPaths (blank 4 2 3 0 3 5 [[-1, -1]] [[0], [0], [0]] false [])
+      [(0, [1], [0, 0, 0, 0]), (1, [1, 0, 0], [0, 0, 0, 0]), (2, [1, 1, 0], [0, 0, 0, 0])] with
+  | .ok s => s
+  | .error _ => exRestored
+
+def eY : Sys := match run { s := eFresh, jobs := [] } mPre with | .ok y => y | .error _ => { s := exRestored, jobs := [] }
+
+def eR : St × Job × List Job :=
+  match stepTreat eY 1 .acc [[1]] with
+  | .ok r => r
+  | .error _ => (exRestored, { pin := 0, wfolder := 0, picked := [], pnumOld := [] }, [])
+
+def eS' : St :=
+  match restore (persist eR.1) 4 2 3 [[-1, -1]] [[0], [0], [0]] (fun pn => (eR.1.wts.lookup pn).getD []) with
+  | .ok s => s
+  | .error _ => exRestored
+
+def eRest : List Ev := [.step 0 .rej [] { t := 0, e := 0 }]
+def eYN : Sys := match run eY (.step 1 .acc [[1]] mO :: eRest) with | .ok y => y | .error _ => eY
+def eYN' : Sys :=
+  match run { s := eS', jobs := [] } (mStarts.map (fun x => Ev.start x.1 x.2) ++ (.initDone :: eRest)) with
+  | .ok y => y
+  | .error _ => eY
+
+theorem eTreat : stepTreat eY 1 .acc [[1]] = .ok eR := eq_ok_of_okEq (by decide +kernel)
+theorem eRunU : run eY (.step 1 .acc [[1]] mO :: eRest) = .ok eYN := eq_ok_of_okEq (by decide +kernel)
+theorem eRunR : run { s := eS', jobs := [] } (mStarts.map (fun x => Ev.start x.1 x.2) ++ (.initDone :: eRest)) = .ok eYN' :=
+  eq_ok_of_okEq (by decide +kernel)
+
+theorem eRestoreRelM : RestoreRelM [[-1, -1]] mRecs eR.1 eS' :=
+  ⟨by decide +kernel, by decide +kernel, by decide +kernel, by decide +kernel, by decide +kernel, by decide +kernel,
+   by decide +kernel, by decide +kernel, by decide +kernel, by decide +kernel, by decide +kernel, by decide +kernel,
+   FEq_of_keys _ _ (by decide +kernel), FEq_of_keys _ _ (by decide +kernel), by decide +kernel, by decide +kernel,
+   by decide +kernel, by decide +kernel, by decide +kernel, by decide +kernel, by decide +kernel, by decide +kernel,
+   by decide +kernel⟩
+
+theorem eStopM : StopM mRecs eR.1 eR.2.2 :=
+  ⟨by decide +kernel, by decide +kernel, by decide +kernel, by decide +kernel, by decide +kernel, by decide +kernel,
+   UniqLive.of_nodup (by decide +kernel), by decide +kernel⟩
+
+/-- the hypotheses of 19 hold together: two of three steps done, one job in flight and on record, no fresh job due; the
+    uninterrupted run has drawn from the scheduler stream, the restarted one not (the field 19 abstracts from) … -/
+example : eR.1.cstep = 2 ∧ eR.1.tsteps = 3 ∧ eR.1.workers = 2 ∧ ¬ (eR.1.cstep + eR.1.workers ≤ eR.1.tsteps) ∧
+    eR.1.cstep < eR.1.tsteps ∧ mRecs.length ≤ eR.1.workers ∧ StepsOnly eRest ∧ mStarts.length = mRecs.length ∧
+    eYN.s.mainDraws ≠ eYN'.s.mainDraws ∧ eYN'.s.mainDraws = 0 ∧ eYN.s.cstep = 3 ∧ eYN'.s.cstep = 3 := by
+  refine ⟨by decide +kernel, by decide +kernel, by decide +kernel, by decide +kernel, by decide +kernel,
+    by decide +kernel, by simp [eRest, StepsOnly], rfl, by decide +kernel, by decide +kernel, by decide +kernel,
+    by decide +kernel⟩
+
+/-- … and its conclusion, instantiated -/
+example : ObsR False 0 eR.1.rows [] eYN.s (setMD eYN'.s eR.1.mainDraws) ∧ JobsEq eYN.jobs eYN'.jobs ∧
+    ∃ rws, eYN.s.rows = eR.1.rows ++ rws ∧ eYN'.s.rows = rws :=
+  restart_equivalence_multi_final_phase 1 .acc [[1]] mO eRest eR eTreat eRestoreRelM eStopM (by decide +kernel)
+    (by decide +kernel) (by decide +kernel) (by simp [eRest, StepsOnly]) eRunU mStarts rfl eRunR
+
+/-- a chain with one restart exists for the two-worker history (20 is not vacuous), built from the files alone -/
+theorem mRestoreEq : restore (persist mR.1) mR.1.n mR.1.workers mR.1.tsteps [[-1, -1]] mR.1.ensEng
+    (fun pn => (mR.1.wts.lookup pn).getD []) = .ok mS' := eq_ok_of_okEq (by decide +kernel)
+
+theorem mRunRest : run mYR mRest = .ok mYN' := eq_ok_of_okEq (by decide +kernel)
+
+example : ChainM mY (([] : List Ev) ++ (.step 1 .acc [[1]] mO :: mRest)) mYN' :=
+  ChainM.restart (steps1 := []) rfl mTreat (by decide +kernel) mRestoreEq (by decide +kernel) mRunR0
+    (ChainM.done mRunRest)
+
+example : ∃ ra rb, ObsR False 0 ra rb mYN.s mYN'.s ∧ JobsEq mYN.jobs mYN'.jobs :=
+  restart_chain_equivalence_multi_unconditional mStartM mPre (.step 1 .acc [[1]] mO :: mRest) mHistOk mRunPre
+    (by decide +kernel) (by simp [mRest, StepsOnly]) mRunU
+    (ChainM.restart (steps1 := []) rfl mTreat (by decide +kernel) mRestoreEq (by decide +kernel) mRunR0
+      (ChainM.done mRunRest))
+
+/-- the two final states are related by `RM`, so `step_respects_obs_eq_multi` / `run_respects_obs_eq_multi` apply to
+    them (hypotheses satisfiable on states that differ in pins and engine table) -/
+example : RM mR.1.rows [] mYN mYN' :=
+  restart_run_multi 1 .acc [[1]] mO mRest mR mTreat mRestoreRelM mStopM (by decide +kernel)
+    (by simp [mRest, StepsOnly]) mRunU mStarts rfl mRunR
+
+/-- the hypotheses of `reissue_in_place` hold for the rebuilt state, and a run with one restart exists
+    (`restart_chain_equivalence_multi` is not vacuous) -/
+example : mStarts.length = mRecs.length ∧ mS'.locked0 = mRecs.map (·.1) ++ [] ∧
+    mS'.locked0Ord = mRecs.map (fun r => some r.2) ++ [] ∧
+    (∀ x ∈ mRecs.flatMap (fun r => recPairs r.1), mS'.trajs[x.1]? = some (some x.2) ∧ x.1 + 1 < mS'.trajs.length) ∧
+    UniqLive mS'.trajs :=
+  ⟨rfl, by decide +kernel, by decide +kernel, by decide +kernel, UniqLive.of_nodup (by decide +kernel)⟩
+
+example : ∃ yN', RestartsM mY (([] : List Ev) ++ (.step 1 .acc [[1]] mO :: mRest)) yN' :=
+  ⟨mYN', RestartsM.restart (by simp [mRest, StepsOnly]) rfl mTreat mRestoreRelM mStopM (by decide +kernel) rfl mRunR
+    (RestartsM.direct mRunR)⟩
+
 
 /-- observational equality is not equality: the two sides of a restart differ in `cworker`, `restarted`, `rows` … -/
 example : ObsEq exRestored { exRestored with cworker := 1, restarted := false, rgenRestored := true } :=
